@@ -26,6 +26,68 @@ func derivesFromField(v ssa.Value, suffix string, d int) bool {
 	return false
 }
 
+// derivesFrom: like derivesFromField, and the value may have travelled: through parameters (every call site hands in
+// a value that derives from the field) and through a field of a module struct that only ever receives such values
+// (a collector object built from the configuration).
+func (m *Model) derivesFrom(v ssa.Value, suffix string, d int) bool {
+	if d > 5 {
+		return false
+	}
+	if derivesFromField(v, suffix, d) {
+		return true
+	}
+	switch x := v.(type) {
+	case *ssa.BinOp:
+		if x.Op == token.ADD {
+			return m.derivesFrom(x.X, suffix, d+1) || m.derivesFrom(x.Y, suffix, d+1)
+		}
+	case *ssa.Parameter:
+		rs := m.resolveUp(x, nil, 0)
+		if len(rs) == 0 || (len(rs) == 1 && rs[0] == v) {
+			return false
+		}
+		for _, r := range rs {
+			if !m.derivesFrom(r, suffix, d+1) {
+				return false
+			}
+		}
+		return true
+	case *ssa.UnOp:
+		fa, ok := x.X.(*ssa.FieldAddr)
+		if !ok || x.Op != token.MUL {
+			return false
+		}
+		tn := derefTypeString(fa.X.Type())
+		if !strings.HasPrefix(tn, modPath) || strings.HasSuffix(tn, "config.Config") {
+			return false
+		}
+		n := 0
+		for _, f := range m.ModFns {
+			if f.Blocks == nil {
+				continue
+			}
+			for _, b := range f.Blocks {
+				for _, in := range b.Instrs {
+					st, isSt := in.(*ssa.Store)
+					if !isSt {
+						continue
+					}
+					fa2, isFA := st.Addr.(*ssa.FieldAddr)
+					if !isFA || fa2.Field != fa.Field || derefTypeString(fa2.X.Type()) != tn {
+						continue
+					}
+					n++
+					if !m.derivesFrom(st.Val, suffix, d+1) {
+						return false
+					}
+				}
+			}
+		}
+		return n > 0
+	}
+	return false
+}
+
 var extAllowed = map[string]int{"strings.HasSuffix": 1, "strings.TrimSuffix": 1, "strings.CutSuffix": 1}
 var dirAllowed = map[string]int{"path/filepath.Rel": 0, "path/filepath.Walk": 0, "path/filepath.WalkDir": 0, "path/filepath.Join": -1, "path/filepath.Clean": 0, "path/filepath.Abs": 0,
 	"strings.Trim": 0, "strings.TrimRight": 0, "strings.TrimLeft": 0, "strings.TrimSuffix": 0, "os.ReadDir": 0, "os.Stat": 0}
@@ -56,7 +118,7 @@ func (m *Model) RunPathAPI(s *Sink, rule string) {
 						if av == nil {
 							continue
 						}
-						if derivesFromField(av, ".TemplateExt", 0) {
+						if m.derivesFrom(av, ".TemplateExt", 0) {
 							nExt++
 							key := fmt.Sprintf("%s|extension passed to %s", fnKey(fn), name)
 							if m.InModule(sc) {
@@ -69,7 +131,7 @@ func (m *Model) RunPathAPI(s *Sink, rule string) {
 								s.Violation(rule, key, m.InstrPos(c), "%s uses the template extension with %s (argument %d): the extension must be tested with strings.HasSuffix and removed with strings.TrimSuffix; substring functions accept or rewrite occurrences that are not at the end of the name (e.g. notes.tw.bak, a.tw.d/x.tw)", fnKey(fn), name, ai)
 							}
 						}
-						if derivesFromField(av, ".TemplateDir", 0) {
+						if m.derivesFrom(av, ".TemplateDir", 0) {
 							nDir++
 							key := fmt.Sprintf("%s|template directory passed to %s", fnKey(fn), name)
 							if m.InModule(sc) {
@@ -91,7 +153,9 @@ func (m *Model) RunPathAPI(s *Sink, rule string) {
 		s.Undecided(rule, "path-api sites", "-", "expected at least two uses each of TemplateExt and TemplateDir in path functions (filter, name derivation, walk, join); found %d and %d", nExt, nDir)
 	}
 	// the walk callback registers a file only if its path ends in the extension and it is not a directory
-	ftf := m.PkgFuncOr("textwire", "findTextwireFiles", func(f *ssa.Function) bool { return callsNamed(f, "Walk", "path/filepath") || callsNamed(f, "WalkDir", "path/filepath") })
+	ftf := m.PkgFuncOr("textwire", "findTextwireFiles", func(f *ssa.Function) bool {
+		return callsNamed(f, "Walk", "path/filepath") || callsNamed(f, "WalkDir", "path/filepath")
+	})
 	if ftf == nil {
 		s.Undecided(rule, "findTextwireFiles", "-", "not found")
 	} else {
@@ -134,7 +198,7 @@ func (m *Model) RunPathAPI(s *Sink, rule string) {
 						if !ok {
 							continue
 						}
-						if sc := c.Call.StaticCallee(); sc != nil && fnFullName(sc) == "strings.HasSuffix" && f.Holds && derivesFromField(c.Call.Args[1], ".TemplateExt", 0) {
+						if sc := c.Call.StaticCallee(); sc != nil && fnFullName(sc) == "strings.HasSuffix" && f.Holds && m.derivesFrom(c.Call.Args[1], ".TemplateExt", 0) {
 							suffixOK = true
 						}
 						if c.Call.IsInvoke() && c.Call.Method.Name() == "IsDir" && !f.Holds {
@@ -153,9 +217,9 @@ func (m *Model) RunPathAPI(s *Sink, rule string) {
 						if c, ok := nin.(*ssa.Call); ok && c.Call.StaticCallee() != nil {
 							switch fnFullName(c.Call.StaticCallee()) {
 							case "path/filepath.Rel":
-								hasRel = hasRel || derivesFromField(c.Call.Args[0], ".TemplateDir", 0)
+								hasRel = hasRel || m.derivesFrom(c.Call.Args[0], ".TemplateDir", 0)
 							case "strings.TrimSuffix", "strings.CutSuffix":
-								hasTrim = hasTrim || derivesFromField(c.Call.Args[1], ".TemplateExt", 0)
+								hasTrim = hasTrim || m.derivesFrom(c.Call.Args[1], ".TemplateExt", 0)
 							}
 						}
 					})
@@ -177,7 +241,9 @@ func (m *Model) RunPathAPI(s *Sink, rule string) {
 		}
 	}
 	// the file of a template name: <dir>/<name><ext>, the extension appended unconditionally
-	if tfp := m.PkgFuncOr("textwire", "templateFullPath", func(f *ssa.Function) bool { return callsNamed(f, "Abs", "path/filepath") && !readsGlobal(f, "usesTemplates") && len(f.Params) == 1 }); tfp != nil {
+	if tfp := m.PkgFuncOr("textwire", "templateFullPath", func(f *ssa.Function) bool {
+		return callsNamed(f, "Abs", "path/filepath") && !readsGlobal(f, "usesTemplates") && len(f.Params) == 1
+	}); tfp != nil {
 		ok := false
 		for _, b := range tfp.Blocks {
 			for _, in := range b.Instrs {
